@@ -44,7 +44,14 @@ def st_case(draw):
     nf = draw(E.weighted((5, st.just(1)), (3, st.just(2)), (1, st.just(3))))
     filters = []
     for _ in range(nf):
-        f = draw(qgen.st_filter(store, allow_absent=False, max_conds=2))
+        shape = draw(st.integers(0, 9))
+        if shape == 0:
+            # conditions on two tag names: the index scan is a union over (name, value) pairs, the AND comes later
+            f = {"#t": [draw(st.sampled_from(["a", "ab"]))], "#p": [qgen.PUBS[0]]}
+        elif shape == 1 and filters:
+            f = {k: v for k, v in filters[-1].items() if k != "limit"}  # same conditions again, another limit
+        else:
+            f = draw(qgen.st_filter(store, allow_absent=False, max_conds=2))
         lim = draw(st.sampled_from(LIMITS))
         if lim != "absent":
             f["limit"] = lim
